@@ -48,9 +48,6 @@ impl OperationControl for Capture {
     ) -> Box<dyn Iterator<Item = usize> + 'a> {
         #[cfg(regexml_verif)]
         crate::verif::tick();
-        if (matcher.program.optimization_flags & OPT_HASBACKREFS) != 0 {
-            matcher.set_start_backref(self.group_nr, Some(position));
-        }
         let basis = self.child_op.matches_iter(matcher, position);
 
         Box::new(CaptureGroupIterator::new(
